@@ -240,6 +240,9 @@ ALPHABET_QUICK = ["drop", "answer", "short_garbage", "exception", "two_fragments
                   "lone_fragment"]
 
 
+ALPHABET_DEEP = ["drop", "answer", "exception", "lone_fragment", "peer_closes", "send_error"]
+
+
 def tasks(tier, seed):
     cfgs = list(CONFIGS_QUICK) + CONFIGS_C04_EXTRA
     alphabet = ALPHABET if tier == "thorough" else ALPHABET_QUICK
@@ -247,13 +250,14 @@ def tasks(tier, seed):
         for tr in ("udp", "tcp"):
             for ka in (False, True):
                 cfgs.append({"transport": tr, "keep_alive": ka, "T": 2, "retries": 2})
-                cfgs.append({"transport": tr, "keep_alive": ka, "T": 3, "retries": 1})
+        cfgs.append({"transport": "udp", "keep_alive": True, "T": 3, "retries": 1})
+        cfgs.append({"transport": "tcp", "keep_alive": False, "T": 3, "retries": 1})
     ts = []
     for i, c in enumerate(cfgs):
         # split the alphabet of the first transmission over tasks (first-level path prefixes in parallel)
         if tier == "thorough":
-            # depth 3 (retries=2) with the 8-kind alphabet, depth <= 2 with the full 12-kind alphabet
-            alphabet = ALPHABET_QUICK if c["retries"] >= 2 else ALPHABET
+            # depth 3 (retries=2) with a 6-kind alphabet, depth <= 2 with the full 13-kind alphabet
+            alphabet = ALPHABET_DEEP if c["retries"] >= 2 else ALPHABET
         if c.get("tx_start") or isinstance(c["T"], float):
             alphabet = ["drop", "answer", "exception"]
         base_alphabet = alphabet
@@ -361,7 +365,7 @@ def evidence_meta(tier):
         "rule": "one state = one path of Inverter._read_from_socket(read command) on the real asyncio transports in the "
                 "virtual world; per transmission the peer's kind is enumerated over the alphabet and its delays are "
                 "symbolic integers, ordered against the library's timers by the solver inside the real heap code",
-        "bounds": {"transmissions": "retries+1 <= 2 (quick) / 3 (thorough), one request", "alphabet": ALPHABET, "alphabet_depth3": ALPHABET_QUICK,
+        "bounds": {"transmissions": "retries+1 <= 2 (quick) / 3 (thorough), one request", "alphabet": ALPHABET, "alphabet_depth3": ALPHABET_DEEP,
                    "delays": "0..2T+1 ticks (symbolic)", "framings": "Modbus RTU/UDP, Modbus/TCP, AA55/UDP (ES runtime command)", "timeout_T": "2, 3 ticks; 1.5 and 2.5 with the alphabet drop/answer/exception (peer delays stay whole ticks)", "retries": "0, 1 (quick) / up to 2 (thorough)",
                    "tcp_connect": "ok after 0..2 ticks, refused, unreachable, never",
                    "hard_cap": "transmissions > retries+3 or virtual time beyond (retries+3)(T+6)+4T abort the path as a violation"},
